@@ -107,3 +107,33 @@ package coregex
 //@   requires r != nil && r.engine != nil && r.engine.pikevm != nil
 //@   modifies r.longest, r.engine.longest, r.engine.pikevm.*, r.engine.boundedBacktracker.internalState.Longest
 //@   ensures r.longest && r.engine.longest
+
+// ---- QuoteMeta (C09): every byte of s is copied, preceded by a backslash exactly when it is one of the 14
+// characters stdlib's QuoteMeta escapes ----
+
+//@ spec func special(c byte) bool = c == '\\' || c == '.' || c == '+' || c == '*' || c == '?' || c == '(' || c == ')' || c == '|' || c == '[' || c == ']' || c == '{' || c == '}' || c == '^' || c == '$'
+//@ opaque spec func nspec(s string, i int) int = ite(i <= 0, 0, nspec(s, i - 1) + ite(special(s[i-1]), 1, 0))
+
+//@ func isSpecial
+//@   props C09 C07 C05
+//@   requires special == "\\.+*?()|[]{}^$"
+//@   ensures result == (c == '\\' || c == '.' || c == '+' || c == '*' || c == '?' || c == '(' || c == ')' || c == '|' || c == '[' || c == ']' || c == '{' || c == '}' || c == '^' || c == '$')
+//@   loop 1: invariant 0 <= i && i <= len(special)
+//@   loop 1: invariant forall j :: 0 <= j && j < i ==> special[j] != c
+//@   loop 1: decreases len(special) - i
+
+//@ func QuoteMeta
+//@   props C09 C07 C05
+//@   requires len(s) <= 70368744177664
+//@   ensures len(result) == len(s) + nspec(s, len(s))
+//@   ensures forall i :: 0 <= i && i < len(s) ==> result[i + nspec(s, i + 1)] == s[i]
+//@   ensures forall i :: 0 <= i && i < len(s) && special(s[i]) ==> result[i + nspec(s, i)] == '\\'
+//@   loop 1: invariant 0 <= i && i <= len(s) && n == nspec(s, i) && 0 <= n && n <= i
+//@   loop 1: invariant forall k :: 0 <= k && k <= i ==> 0 <= nspec(s, k) && nspec(s, k) <= nspec(s, i)
+//@   loop 1: decreases len(s) - i
+//@   loop 2: invariant 0 <= i && i <= len(s) && j == i + nspec(s, i) && n == nspec(s, len(s)) && len(buf) == len(s) + n && nspec(s, i) <= n
+//@   loop 2: invariant forall k :: 0 <= k && k <= len(s) ==> 0 <= nspec(s, k) && nspec(s, k) <= n
+//@   loop 2: invariant forall k :: 0 <= k && k <= i ==> nspec(s, k) <= nspec(s, i)
+//@   loop 2: invariant forall k :: 0 <= k && k < i ==> buf[k + nspec(s, k + 1)] == s[k]
+//@   loop 2: invariant forall k :: 0 <= k && k < i && special(s[k]) ==> buf[k + nspec(s, k)] == '\\'
+//@   loop 2: decreases len(s) - i
